@@ -22,7 +22,7 @@ def OWorld.WRet.show : OWorld.WRet Nat → String
 /-- woken waker ids, canonical: sorted, without duplicates, and only wakers of subscribers that still exist
     (waking the stale waker of a dropped subscriber is not observable) -/
 def showWokeO (w : OWorld Nat) (wk : List Nat) : String :=
-  " woke=" ++ showList (dedupSorted (wk.filter w.subAlive))
+  " woke=" ++ showList (dedupSorted (wk.filter fun id => (900 ≤ id && id < 1000) || w.subAlive id))
 
 structure ObsDrv where
   w : OWorld Nat := OWorld.newUnique 0
@@ -55,7 +55,7 @@ def ObsDrv.wakeIds (d : ObsDrv) (wk : List Nat) (lw : List AOwner) : List Nat :=
 
 /-- canonical display: subscriber wakers (stream polls) that still exist, then wakers of futures that are still pending -/
 def showWakes (a : AWorld) (ids : List Nat) (subsAlways : Bool := true) : String :=
-  let ss := dedupSorted ((ids.filter (· < 1000)).filter a.w.subAlive)
+  let ss := dedupSorted ((ids.filter (· < 1000)).filter fun id => 900 ≤ id || a.w.subAlive id)
   let fs := dedupSorted (((ids.filter (· ≥ 1000)).map (· - 1000)).filter fun k =>
     match a.futs[k]? with | some f => f.st != .done | none => false)
   (if subsAlways then " woke=" ++ showList ss else "") ++ (if fs.isEmpty then "" else " wokef=" ++ showList fs)
@@ -150,12 +150,13 @@ def obsStep (d : ObsDrv) (toks : List String) : Option (ObsDrv × String) :=
           | none => bad
         else some (d.ofAw a, "Pending(" ++ toString k ++ ")")
       | _, _ => bad
-    else if d.async && kind = "opoll" && rest = [] then
+    else if d.async && (kind = "opoll" || kind = "opollt") && rest = [] then
       match h.toNat? with
       | none => bad
       | some i =>
-        let d := d.setLockWaker i i
-        match d.aw.pollSub i with
+        let wkid := if kind = "opollt" then 900 else i
+        let d := d.setLockWaker i wkid
+        match d.aw.pollSub i wkid with
         | some (a, r, lw) => some (d.ofAw a, r.show ++ showWakes a (d.wakeIds [] lw) false)
         | none => bad
     else if d.async && kind = "osdrop" && rest = [] then
@@ -186,6 +187,10 @@ def obsStep (d : ObsDrv) (toks : List String) : Option (ObsDrv × String) :=
       | none => bad
     | "opoll", some i, [] =>
       match w.poll i with
+      | some (w', r) => some ({ d with w := w' }, r.show)
+      | none => bad
+    | "opollt", some i, [] =>     -- polled by the task that polls several subscribers with one waker (identity 900)
+      match w.pollW i 900 with
       | some (w', r) => some ({ d with w := w' }, r.show)
       | none => bad
     | "onext", some i, [] =>
